@@ -20,7 +20,8 @@ The accepted Python subset (anything else in a translated function is a `Transla
   * signatures: positional-or-keyword parameters; defaults only `True` / `False`
 The module-level bindings of the vocabulary (`complex_exp` = cmath.exp, `cexp` = elementwise("x", 0)(cmath.exp), `reduce` =
 functools.reduce, `operator`, `nan`, `elementwise`, `Stream`) are checked too.
-Whitespace, comments and docstrings do not matter; local variable names are kept (Lean's `let` is checked up to renaming)."""
+Whitespace, comments, docstrings and the names of local variables do not matter (locals become v1, v2, ... in binding
+order); parameter names are part of the signature and are kept."""
 import ast
 import os
 import re
@@ -150,7 +151,14 @@ def check_vocabulary(trees):
 # ------------------------------------------------------------------------------------------------
 def lean_name(py):
     need(re.fullmatch(r"[A-Za-z_][A-Za-z0-9_]*", py) is not None, "identifier %r" % (py,))
+    need(re.fullmatch(r"v[0-9]+", py) is None, "parameter named like a generated local: %r" % (py,))
     return py + "'" if (py in LEAN_RESERVED or py == "_") else py
+
+
+def fresh(env):
+    """locals are renamed v1, v2, ... in binding order: renaming a local variable in the source changes nothing"""
+    env["\0n"][0] += 1
+    return "v%d" % env["\0n"][0]
 
 
 def lean_str(s):
@@ -277,7 +285,7 @@ def expr(node, env, where):
         xs, sx = expr(g.iter, env, where)
         need(sx.startswith("list:"), "%s: iteration over %s" % (where, sx))
         need(isinstance(g.target, ast.Name), "%s: comprehension target is not a name" % where)
-        v = lean_name(g.target.id)
+        v = fresh(env)
         inner = dict(env)
         inner[g.target.id] = (v, sx[5:])
         # [v / d for v in data], d a length: division by an int that may be zero
@@ -319,7 +327,7 @@ def expr(node, env, where):
             tg = g.target
             need(isinstance(tg, ast.Tuple) and len(tg.elts) == 2 and all(isinstance(e, ast.Name) for e in tg.elts)
                  and tg.elts[0].id != tg.elts[1].id, "%s: target of the enumerate loop is not `n, xn`" % where)
-            n, x = lean_name(tg.elts[0].id), lean_name(tg.elts[1].id)
+            n, x = fresh(env), fresh(env)
             inner = dict(env)
             inner[tg.elts[0].id] = (n, "idx")
             inner[tg.elts[1].id] = (x, "num")
@@ -384,7 +392,7 @@ def block(stmts, env, ret, where, ind):
         need(env.get(name, (None, "local"))[1] not in ("self", "bank"), "%s: `%s` is re-bound" % (where, name))
         term, sort = expr(st.value, env, where)
         need(sort not in ("nan",), "%s: nan bound to a variable" % where)
-        v = lean_name(name)
+        v = fresh(env)
         inner = dict(env)
         inner[name] = (v, sort)
         return [pad + "let %s := %s" % (v, term)] + block(rest, inner, ret, where, ind)
@@ -441,12 +449,12 @@ def tr_method(cls, fn):
     ls, lf = lean_name(sp), lean_name(fp)
     lname = "%s_freq_response" % cls
     if cls == "LinearFilter":
-        env = {sp: (ls, "self"), fp: (lf, "freq")}
+        env = {sp: (ls, "self"), fp: (lf, "freq"), "\0n": [0]}
         lines = ["/-- body of `%s.freq_response(%s, %s)`; `none` = nan -/" % (cls, sp, fp),
                  "def %s (X : CExp φ α) (%s : Filt α) (%s : φ) : Option α :=" % (lname, ls, lf)]
         lines += block(list(fn.body), env, _ret_option_num(where), where, 1)
     else:
-        env = {sp: (ls, "bank"), fp: (lf, "freq")}
+        env = {sp: (ls, "bank"), fp: (lf, "freq"), "\0n": [0]}
         lines = ["/-- body of `%s.freq_response(%s, %s)`: `member m f` is `m.freq_response(f)` -/" % (cls, sp, fp),
                  "def %s {μ : Type} (member : μ → φ → Resp α) (callables : List μ) (%s : φ) : Resp α :=" % (lname, lf)]
         lines += block(list(fn.body), env, _ret_resp(where), where, 1)
@@ -465,7 +473,7 @@ def tr_dft(fn):
     ps = params(fn, where)
     need(len(ps) == 3 and ps[0][1] is None and ps[1][1] is None, "dft: signature is not (blk, freqs, normalize[=…])-shaped: %r" % (ps,))
     (b, _), (f, _), (nz, _) = ps
-    env = {b: (lean_name(b), "list:num"), f: (lean_name(f), "list:freq"), nz: (lean_name(nz), "bool")}
+    env = {b: (lean_name(b), "list:num"), f: (lean_name(f), "list:freq"), nz: (lean_name(nz), "bool"), "\0n": [0]}
     lines = ["/-- body of `dft(%s)`; `none` = ZeroDivisionError -/" % ", ".join(p for p, _ in ps),
              "def dft (X : CExp φ α) (%s : List α) (%s : List φ) (%s : Bool) : Option (List α) :=" % (
                  lean_name(b), lean_name(f), lean_name(nz))]
@@ -572,6 +580,8 @@ EDITS = [
 HARMLESS = [
     ("comment-and-blank-lines", "filters", "    z_ = complex_exp(-1j * freq)", "    # the point on the unit circle\n\n    z_ = complex_exp( -1j*freq )"),
     ("dft-docstring", "analysis", "  Complex non-optimized Discrete Fourier Transform", "  DFT."),
+    ("rename-locals", "analysis", "  dft_data = (sum(xn * cexp(-1j * n * f) for n, xn in enumerate(blk))\n                                         for f in freqs)\n  if normalize:\n    lblk = len(blk)\n    return [v / lblk for v in dft_data]\n  return list(dft_data)",
+     "  data = (sum(x * cexp(-1j * k * w) for k, x in enumerate(blk)) for w in freqs)\n  if normalize:\n    size = len(blk)\n    return [y / size for y in data]\n  return list(data)"),
 ]
 
 
